@@ -42,10 +42,21 @@ func builtinStringFromCharCode(call FunctionCall) Value {
 	return string16Value(chrList)
 }
 
+// stringObjectOf returns the string a generic receiver denotes: the content of a String
+// object, ToString of anything else (ES5 15.5.4.4: the function is intentionally generic).
+func stringObjectOf(this Value) stringObjecter {
+	if obj := this.object(); obj != nil {
+		if str := obj.stringValue(); str != nil {
+			return str
+		}
+	}
+	return newStringObject(this.string())
+}
+
 func builtinStringCharAt(call FunctionCall) Value {
 	checkObjectCoercible(call.runtime, call.This)
 	idx := int(call.Argument(0).number().int64)
-	chr := stringAt(call.This.object().stringValue(), idx)
+	chr := stringAt(stringObjectOf(call.This), idx)
 	if chr == utf8.RuneError {
 		return stringValue("")
 	}
@@ -55,7 +66,7 @@ func builtinStringCharAt(call FunctionCall) Value {
 func builtinStringCharCodeAt(call FunctionCall) Value {
 	checkObjectCoercible(call.runtime, call.This)
 	idx := int(call.Argument(0).number().int64)
-	chr := stringAt(call.This.object().stringValue(), idx)
+	chr := stringAt(stringObjectOf(call.This), idx)
 	if chr == utf8.RuneError {
 		return NaNValue()
 	}
@@ -125,8 +136,8 @@ func builtinStringLastIndexOf(call FunctionCall) Value {
 		return intValue(lastIndexRune(value, target))
 	}
 	start := call.ArgumentList[1].number()
-	if start.kind == numberInfinity { // FIXME
-		// startNumber is infinity, so start is the end of string (start = length)
+	if start.kind == numberInfinity && start.int64 > 0 {
+		// startNumber is +infinity, so start is the end of string (start = length)
 		return intValue(lastIndexRune(value, target))
 	}
 	if 0 > start.int64 {
